@@ -44,83 +44,83 @@ def run(ctx):
             if f is None:
                 ctx.unrecognised('R14.1', name, 'missing', 'iterator method %s not found' % name)
                 continue
-            # the callable handed to filter_map: a closure or a function item (e.g. a private helper passed by path)
-            captured = []
-            captured_src = []
-
-            def cap_hook(it, fn, t, args, captured=captured, captured_src=captured_src):
+            # the method returns a pipeline of per-item adaptors over the traversal: filter_map / filter / map with closures or function
+            # items, in any number and order (std: each keeps the order of the items it lets through and treats items independently).
+            # The pipeline is read off the returned iterator term; private helpers between the method and its adaptors are followed.
+            def trav_hook(it, fn, t, args):
                 c = t['callee']
-                if c['name'] == 'filter_map' and not c.get('local') and len(args) == 2:
-                    captured.append(args[1])
-                    captured_src.append(args[0])
-                    return Stop(None)
                 if c.get('local') and c['name'] in ('iter', 'iter_operators_mut', 'new') and 'tree::iter' in c['def']:
                     return ('app', short(c['def']), tuple(args))
-                return None   # private helpers between the method and its filter_map are followed
+                return None
             try:
-                Interp(prog, hook=cap_hook).paths(f, [SYM('self')])
+                rps = Interp(prog, hook=trav_hook).paths(f, [SYM('self')])
             except Budget:
-                captured = []
-            if len(captured) != 1 or captured[0][0] not in ('closure', 'fn'):
-                ctx.unrecognised('R14.1', name, 'closures', 'expected exactly one filter_map with a closure or function as its filter, found %d' % len(captured), span=f.span)
+                rps = []
+            if len(rps) != 1:
+                ctx.unrecognised('R14.1', name, 'closures', 'expected the method to build one iterator on a single path, found %d paths' % len(rps), span=f.span)
+                continue
+            src = rps[0][0]
+            stages = []
+            while src[0] == 'app' and src[1].split('#')[0].split('::')[-1] in ('filter_map', 'filter', 'map') and 'iter::Iterator' in src[1] and len(src[2]) == 2 and src[2][1][0] in ('closure', 'fn'):
+                stages.insert(0, (src[1].split('#')[0].split('::')[-1], src[2][1]))
+                src = src[2][0]
+            if not any(k_ in ('filter_map', 'filter') for k_, _ in stages):
+                ctx.unrecognised('R14.1', name, 'closures', 'expected a filter_map / filter pipeline over the traversal, found %s' % fmt(rps[0][0])[:160], span=f.span)
                 continue
             n += 1
-            filt = captured[0]
-            c = prog.by_path.get(filt[1]) or f
-            # what the filter is applied to: the traversal's items (nodes, or operators for the mutable walk), possibly mapped first
-            # (`self.iter().map(Node::operator).filter_map(..)`): a map keeps every item and the order, so the mapped item is used
-            src = captured_src[0] if captured_src else None
-            maps = []
-            while src is not None and src[0] == 'app' and src[1].split('#')[0].endswith('iter::Iterator::map') and len(src[2]) == 2 and src[2][1][0] in ('closure', 'fn'):
-                maps.insert(0, src[2][1])
-                src = src[2][0]
-            takes_node = not (src is not None and src[0] == 'app' and src[1].endswith('iter_operators_mut'))
+            c = prog.by_path.get(stages[0][1][1]) or f
+            takes_node = not (src[0] == 'app' and src[1].endswith('iter_operators_mut'))
             got = set()
             bad = False
             for v in op['variants']:
                 fields = [SYM('%s.%s' % (v['name'], fd['name'])) for fd in v['fields']]
                 opv = ADT(op['path'], v['idx'], v['name'], fields)
-                arg = ADT(node['path'], 0, 'Node', [opv, SYM('children')]) if takes_node else opv
+                item = ADT(node['path'], 0, 'Node', [opv, SYM('children')]) if takes_node else opv
                 it = Interp(prog)
-                for g_ in maps:
+                dropped = False
+                for kind_, fn_ in stages:
                     try:
-                        r_ = it.apply_callable(g_, [arg], 0)
+                        res = it.apply_callable(fn_, [item], 0)
                     except Budget:
-                        r_ = None
-                    ps_ = r_[1] if (isinstance(r_, tuple) and r_ and r_[0] == 'paths') else ([(r_, ())] if r_ is not None else [])
-                    arg = ps_[0][0] if len(ps_) == 1 else None
-                    if arg is None:
-                        break
-                if arg is None:
-                    ctx.unrecognised('R14.1', name, 'mapped-item', 'the item mapping before the filter is not a single-valued function of the node', span=c.span)
-                    bad = True
-                    break
-                try:
-                    res = it.apply_callable(filt, [arg], 0)
-                except Budget:
-                    res = None
-                if res is None:
-                    ctx.unrecognised('R14.1', name, 'budget', 'filter too complex', span=c.span)
-                    bad = True
-                    break
-                paths = res[1] if (isinstance(res, tuple) and res and res[0] == 'paths') else [(res, ())]
-                if len(paths) != 1:
-                    ctx.violation('R14.1', name, 'value-dependent:' + v['name'], 'filter closure branches on more than the operator kind for %s (%d paths)' % (v['name'], len(paths)), span=c.span)
-                    bad = True
-                    continue
-                ret = paths[0][0]
-                if is_adt(ret, 'option::Option', 'None'):
-                    continue
-                if is_adt(ret, 'option::Option', 'Some'):
-                    got.add(v['name'])
-                    payload = ret[4][0]
-                    ident = SYM('%s.identifier' % v['name'])
-                    good = payload == ident or (payload[0] == 'app' and payload[1].endswith('as_str') and payload[2] == (ident,))
-                    if not good:
-                        ctx.violation('R14.1', name, 'payload:' + v['name'], 'yields %s instead of the identifier field of %s' % (fmt(payload), v['name']), span=c.span)
+                        res = None
+                    if res is None:
+                        ctx.unrecognised('R14.1', name, 'budget', '%s stage too complex' % kind_, span=c.span)
                         bad = True
-                else:
-                    ctx.unrecognised('R14.1', name, 'result:' + v['name'], 'closure result %s is neither Some nor None' % fmt(ret), span=c.span)
+                        break
+                    paths = res[1] if (isinstance(res, tuple) and res and res[0] == 'paths') else [(res, ())]
+                    if len(paths) != 1:
+                        ctx.violation('R14.1', name, 'value-dependent:' + v['name'], 'the %s stage branches on more than the operator kind for %s (%d paths)' % (kind_, v['name'], len(paths)), span=c.span)
+                        bad = True
+                        break
+                    ret = paths[0][0]
+                    if kind_ == 'map':
+                        item = ret
+                    elif kind_ == 'filter_map':
+                        if is_adt(ret, 'option::Option', 'None'):
+                            dropped = True
+                            break
+                        if not is_adt(ret, 'option::Option', 'Some'):
+                            ctx.unrecognised('R14.1', name, 'result:' + v['name'], 'closure result %s is neither Some nor None' % fmt(ret), span=c.span)
+                            bad = True
+                            break
+                        item = ret[4][0]
+                    else:
+                        if ret[0] != 'c' or not isinstance(ret[1], (bool, int)):
+                            ctx.unrecognised('R14.1', name, 'result:' + v['name'], 'filter predicate %s is not decided by the operator kind' % fmt(ret), span=c.span)
+                            bad = True
+                            break
+                        if not ret[1]:
+                            dropped = True
+                            break
+                if bad:
+                    break
+                if dropped:
+                    continue
+                got.add(v['name'])
+                ident = SYM('%s.identifier' % v['name'])
+                good = item == ident or (item[0] == 'app' and item[1].endswith('as_str') and item[2] == (ident,))
+                if not good:
+                    ctx.violation('R14.1', name, 'payload:' + v['name'], 'yields %s instead of the identifier field of %s' % (fmt(item), v['name']), span=c.span)
                     bad = True
             selected[name] = got
             if not bad:
@@ -128,12 +128,12 @@ def run(ctx):
                 ctx.sample(dict(rule='R14.1', method=name, selects=sorted(got)))
             # R14.2 traversal + adaptor
             want_trav = 'tree::iter::<impl tree::Node>::iter_operators_mut' if suffix else 'tree::iter::<impl tree::Node>::iter'
-            trav_ok = src is not None and src[0] == 'app' and src[1] == want_trav and src[2] == (SYM('self'),)
-            ctx.check(trav_ok, 'R14.2', name + ':traversal', 'traversal', '%s filters the traversal %s(self) directly (found %s)' % (name, want_trav, fmt(src)[:120] if src else None), span=f.span)
-            # nothing is stacked on top of the filter: the method (and a private helper it may go through) makes no other non-local call
+            trav_ok = src[0] == 'app' and src[1] == want_trav and src[2] == (SYM('self'),)
+            ctx.check(trav_ok, 'R14.2', name + ':traversal', 'traversal', '%s filters the traversal %s(self) directly (found %s)' % (name, want_trav, fmt(src)[:120]), span=f.span)
+            # nothing else is stacked into the pipeline: the method (and a private helper it may go through) makes no other non-local call
             chain = [f] + [g for g in prog.fns if g.kind != 'Closure' and any(t_['callee'].get('local') and short(t_['callee']['def']) == short(g.path) for _b, t_ in f.calls()) and 'tree::iter' not in g.path]
             std_calls = sorted(t_['callee']['name'] for g in dict((g_.path, g_) for g_ in chain).values() for _b, t_ in g.calls() if not t_['callee'].get('local'))
-            ctx.check(std_calls == ['filter_map'] + ['map'] * len(maps), 'R14.2', name + ':adaptor', 'adaptor', 'the only iterator adaptor is filter_map, after %d item mapping(s) (found %s)' % (len(maps), std_calls), span=f.span)
+            ctx.check(std_calls == sorted(k_ for k_, _ in stages), 'R14.2', name + ':adaptor', 'adaptor', 'the only iterator adaptors are the per-item ones of the pipeline %s (found %s)' % ([k_ for k_, _ in stages], std_calls), span=f.span)
     ctx.floor('R14.1', 'iterator_filters', n, 10)
     for base in WANT:
         if base in selected and base + '_mut' in selected:
@@ -154,21 +154,48 @@ def r14_5(ctx, prog):
     (b) the top iterator yields a node n => n's children iterator is pushed on top and Some(n) is returned (so n's descendants
         come next, before n's siblings);
     (c) the top iterator is exhausted => it is popped and the loop continues with the parent's iterator.
-    `new` starts the stack with the children iterator of the root."""
-    from absint import NONE as N_
-    for tyname, proj in (('NodeIter', None), ('OperatorIterMut', 'operator')):
-        fs = [f for f in prog.fns if f.name == 'next' and tyname in (f.j.get('impl_self_ty') or '')]
+    The constructor starts the stack with the children iterator of the root. The traversal type is read off the public entry point
+    (`Node::iter` / `Node::iter_operators_mut` construct it from self), so it may be a type of its own or an instantiation of a
+    generic traversal shared by both walks; a generic one is interpreted at the instantiation the entry point constructs."""
+    from absint import NONE as N_, has_subterm
+    for entry_name, proj, tyname in (('iter', None, 'NodeIter'), ('iter_operators_mut', 'operator', 'OperatorIterMut')):
+        g = [f for f in prog.fns if f.name == entry_name and 'tree::iter' in f.path and f.kind == 'AssocFn']
+        if len(g) != 1:
+            ctx.unrecognised('R14.5', 'Node::' + entry_name, 'missing', 'not found')
+            continue
+        captured = []
+
+        def hook(it, fn, t, args, captured=captured, g=g):
+            c = t['callee']
+            tgt = prog.by_path.get(c['def']) if c.get('local') else None
+            if tgt is not None and tgt.kind == 'AssocFn' and tgt is not g[0] and tgt.j.get('impl_self_ty') and not captured:
+                captured.append((c, tgt, it._callee_tyenv(c, tgt)))
+                return ('app', short(c['def']), tuple(args))
+            return None
+        ps = Interp(prog, hook=hook).paths(g[0], [SYM('self')])
+        good = len(ps) == 1 and len(captured) == 1 and ps[0][0] == ('app', short(captured[0][0]['def']), (SYM('self'),))
+        ctx.check(good, 'R14.5', 'Node::' + entry_name, 'entry', 'Node::%s constructs its traversal from self, and returns it as it is (found %s)' % (entry_name, [fmt(p_[0])[:100] for p_ in ps]), span=g[0].span)
+        if not good:
+            continue
+        c0, ctor, tenv = captured[0]
+        sty = ctor.j.get('impl_self_ty')
+        probe = Interp(prog)
+        probe.tyenv.append(tenv)
+        concrete = probe._subst_ty(sty)
+        fs = [f for f in prog.fns if f.name == 'next' and path_endswith(f.j.get('impl_trait') or '', 'iter::Iterator') and f.j.get('impl_self_ty')
+              and probe._unify_ty(f.j['impl_self_ty'], concrete, f.j.get('generics') or []) is not None]
         if len(fs) != 1:
-            ctx.unrecognised('R14.5', tyname + '::next', 'missing', 'not found')
+            ctx.unrecognised('R14.5', tyname + '::next', 'missing', 'the Iterator impl of the traversal type %s was not found' % sty)
             continue
         f = fs[0]
         try:
-            ps = Interp(prog, loop_bound=0, record_backedge=True).paths(f, [SYM('self')])
+            it = Interp(prog, loop_bound=0, record_backedge=True)
+            it.tyenv.append(probe._unify_ty(f.j['impl_self_ty'], concrete, f.j.get('generics') or []) or {})
+            ps = it.paths(f, [SYM('self')])
         except Budget:
             ctx.unrecognised('R14.5', tyname + '::next', 'budget', 'too complex', span=f.span)
             continue
         # the explicit stack: the one vector of the iterator whose top is inspected (a field of self, possibly of an inner traversal struct)
-        from absint import has_subterm
         stacks = {v[2][0][2][0] for _r, eff_ in ps for e in eff_ if e[0] == '<branch>' for v in [e[2][0]]
                   if v[0] == 'app' and v[1] == 'discriminant' and v[2][0][0] == 'app' and 'last_mut' in v[2][0][1] and len(v[2][0][2]) == 1 and has_subterm(v[2][0][2][0], SYM('self'))}
         if len(stacks) != 1:
@@ -213,31 +240,14 @@ def r14_5(ctx, prog):
                 bad.append('unexpected outcome %s' % fmt(ret)[:80])
         good = not bad and shapes == {'none': 1, 'yield': 1, 'pop': 1}
         ctx.check(good, 'R14.5', tyname + '::next', 'traversal-step', 'one step of the traversal is: empty stack => None; top yields n => push n.children, return n; top exhausted => pop and continue (shapes %s; problems %s)' % (shapes, bad[:2]), span=f.span)
-        ns = [g for g in prog.fns if g.name == 'new' and tyname in (g.j.get('impl_self_ty') or '')]
-        if len(ns) != 1:
-            ctx.unrecognised('R14.5', tyname + '::new', 'missing', 'not found')
-            continue
-        ps = Interp(prog).paths(ns[0], [SYM('node')])
+        it = Interp(prog)
+        it.tyenv.append(tenv)
+        ps = it.paths(ctor, [SYM('node')])
         effs = [e for p_ in ps for e in p_[1]]
         arrays = [e[2][-1] for e in effs if e[0] in ('<store>', '<store-field>') and e[2][-1][0] == 'tuple']
         want = ('proj', SYM('node'), ('children',))
         good = len(ps) == 1 and len(arrays) == 1 and len(arrays[0][1]) == 1 and arrays[0][1][0][0] == 'app' and arrays[0][1][0][1].split('::')[-1].split('#')[0] in ('iter', 'iter_mut') and arrays[0][1][0][2] == (want,)
-        ctx.check(good, 'R14.5', tyname + '::new', 'initial-stack', 'the traversal starts with exactly the children iterator of the root on the stack (found %s)' % [fmt(a)[:100] for a in arrays], span=ns[0].span)
-    # the public entry points construct the iterators from self
-    for name, ty in (('iter', 'NodeIter'), ('iter_operators_mut', 'OperatorIterMut')):
-        g = [f for f in prog.fns if f.name == name and 'tree::iter' in f.path and f.kind == 'AssocFn']
-        if len(g) != 1:
-            ctx.unrecognised('R14.5', 'Node::' + name, 'missing', 'not found')
-            continue
-
-        def hook(it, fn, t, args):
-            c = t['callee']
-            if c.get('local') and c['name'] == 'new':
-                return ('app', short(c['def']), tuple(args))
-            return None
-        ps = Interp(prog, hook=hook).paths(g[0], [SYM('self')])
-        good = len(ps) == 1 and ps[0][0][0] == 'app' and ty in ps[0][0][1] and ps[0][0][2] == (SYM('self'),)
-        ctx.check(good, 'R14.5', 'Node::' + name, 'entry', 'Node::%s traverses self with %s::new(self)' % (name, ty), span=g[0].span)
+        ctx.check(good, 'R14.5', tyname + '::new', 'initial-stack', 'the traversal starts with exactly the children iterator of the root on the stack (found %s)' % [fmt(a)[:100] for a in arrays], span=ctor.span)
 
 
 def cfg_iso_mod_projection(f1, f2, norm):
